@@ -11,6 +11,7 @@ import FordModel.AccessNames
 import FordModel.Lemmas.AccessNames
 import FordModel.AccessImpl
 import FordModel.Lemmas.AccessImpl
+import FordModel.AccessPage
 namespace Ford.C04
 open Ford Ford.Access
 
@@ -913,5 +914,112 @@ theorem own_module_body_tables_sound (n : Str) :
   · first
     | (left; decide)
     | (right; intro x hx; rw [applyAttrs_single]; revert x; decide)
+
+/-! ### round 6 - the visibility words on the generated module page -/
+
+/-- **The measured table of the page templates**: at every kind of place of the module page where a visibility word
+    stands - variable row, type heading, component row, binding row, generic-interface heading, procedure listed
+    under a generic interface (declared or referenced), procedure of a non-generic / abstract interface entry,
+    function / subroutine / module-procedure heading - the template prints the `permission` of **the entity itself**
+    (token probe of the translator on the real `mod_page.html`).  A template that prints the generic's visibility in
+    front of its specific procedures, or drops the word for one kind, changes `pageSrc` and breaks this theorem. -/
+theorem page_tables_sound : ∀ k : PKind, srcOf k = .own := by
+  intro k; cases k <;> decide
+
+/-- **What the module page prints is the entity's permission.**  For every unit result (any variant, any program):
+    every entity of the unit has its line on the page with its own permission as the visibility word; so has every
+    component and binding of every type, every procedure declared by an interface body of a generic interface, and
+    every `module procedure` body; and a `module procedure r` reference is printed with the permission of the
+    module procedure `r`. -/
+theorem module_page_shows_own_permission (unit : Perm) (o : XOut) :
+    (∀ e ∈ o.out.ents, ∃ l ∈ pageView unit o, l.owner = [] ∧ l.name = e.name ∧ l.shown = some e.perm) ∧
+    (∀ e ∈ o.out.ents, e.cat = .type → (∀ k ∈ e.comps, ⟨.comp, e.name, k.name, some k.perm⟩ ∈ pageView unit o) ∧
+      (∀ k ∈ e.binds, ⟨.bind, e.name, k.name, some k.perm⟩ ∈ pageView unit o)) ∧
+    (∀ e ∈ o.out.ents, e.cat = .iface → e.wrapper = false →
+      (∀ k ∈ e.procs, ⟨.member, e.name, k.name, some k.perm⟩ ∈ pageView unit o) ∧
+      (∀ r ∈ e.refs, ∀ p, procPerm o.out.ents r.name = some p → ⟨.ref, e.name, r.name, some p⟩ ∈ pageView unit o)) ∧
+    (∀ k ∈ o.impls, ⟨.mproc, [], k.name, some k.perm⟩ ∈ pageView unit o) := by
+  have hs : ∀ (k : PKind) (a b : Perm), shownPerm k a b = some a := by
+    intro k a b; simp [shownPerm, page_tables_sound k]
+  have hin : ∀ e ∈ o.out.ents, ∀ l ∈ entLines unit o.out.ents e, l ∈ pageView unit o := by
+    intro e he l hl
+    exact List.mem_append_left _ (List.mem_flatMap.2 ⟨e, he, hl⟩)
+  refine ⟨?_, ?_, ?_, ?_⟩
+  · intro e he
+    cases hc : e.cat with
+    | var =>
+      exact ⟨⟨.var, [], e.name, shownPerm .var e.perm unit⟩, hin e he _ (by simp [entLines, hc]), rfl, rfl, by simp [hs]⟩
+    | type =>
+      exact ⟨⟨.type, [], e.name, shownPerm .type e.perm unit⟩, hin e he _ (by simp [entLines, hc]), rfl, rfl, by simp [hs]⟩
+    | iface =>
+      by_cases hw : e.wrapper = true
+      · exact ⟨⟨.wrapper, [], e.name, shownPerm .wrapper e.perm unit⟩, hin e he _ (by simp [entLines, hc, hw]), rfl, rfl,
+          by simp [hs]⟩
+      · exact ⟨⟨.generic, [], e.name, shownPerm .generic e.perm unit⟩, hin e he _ (by simp [entLines, hc, hw]), rfl, rfl,
+          by simp [hs]⟩
+    | absIface =>
+      exact ⟨⟨.absIface, [], e.name, shownPerm .absIface e.perm unit⟩, hin e he _ (by simp [entLines, hc]), rfl, rfl, by simp [hs]⟩
+    | func =>
+      exact ⟨⟨.func, [], e.name, shownPerm .func e.perm unit⟩, hin e he _ (by simp [entLines, hc]), rfl, rfl, by simp [hs]⟩
+    | sub =>
+      exact ⟨⟨.sub, [], e.name, shownPerm .sub e.perm unit⟩, hin e he _ (by simp [entLines, hc]), rfl, rfl, by simp [hs]⟩
+  · intro e he hc
+    refine ⟨fun k hk => hin e he _ ?_, fun k hk => hin e he _ ?_⟩
+    · simp only [entLines, hc, List.mem_cons, List.mem_append, List.mem_map]
+      exact Or.inr (Or.inl ⟨k, hk, by simp [hs]⟩)
+    · simp only [entLines, hc, List.mem_cons, List.mem_append, List.mem_map]
+      exact Or.inr (Or.inr ⟨k, hk, by simp [hs]⟩)
+  · intro e he hc hw
+    refine ⟨fun k hk => hin e he _ ?_, fun r hr p hp => hin e he _ ?_⟩
+    · simp only [entLines, hc, hw, Bool.false_eq_true, if_false, List.mem_cons, List.mem_append, List.mem_map]
+      exact Or.inr (Or.inl ⟨k, hk, by simp [hs]⟩)
+    · simp only [entLines, hc, hw, Bool.false_eq_true, if_false, List.mem_cons, List.mem_append, List.mem_filterMap]
+      exact Or.inr (Or.inr ⟨r, hr, by simp [hp, hs]⟩)
+  · intro k hk
+    exact List.mem_append_right _ (List.mem_map.2 ⟨k, hk, by simp [hs]⟩)
+
+/-- **The module page shows Fortran's accessibility** (`access_correct_partial` carried to the second observation
+    point).  For every module `pre ++ d :: post` (written in abstract statements, no host, any variant, either value of
+    `implAttr`) and every entity `(c, n, attrs)` that `d` declares, under the hypotheses of `access_correct_partial`
+    (legal program, no PROTECTED, not in the class of the late-`private` defect): the page has a line for `n`, listed
+    by the module itself, whose visibility word is `fortranAccess`. -/
+theorem module_page_shows_fortran_access_partial (v : Variant) (g ia : Bool) (pre post : List Stmt) (d : Stmt) (c : Cat)
+    (n : Str) (attrs : List Attr)
+    (hx : (c, n, attrs) ∈ declares d)
+    (hnames : NamesOnce (pre ++ d :: post))
+    (hbare : BareLegal (pre ++ d :: post))
+    (hproc : isProc d = true → Stmt.contains ∈ pre)
+    (hone : OneAccessSpec (pre ++ d :: post) attrs n)
+    (hprot : hasProtected (pre ++ d :: post) attrs n = false)
+    (hlate : ¬ LateDefault (pre ++ d :: post) post attrs n) (unit : Perm) :
+    ∃ l ∈ pageView unit (runXI v g false ia [] (((pre ++ d :: post).map RStmt.plain).map XStmt.stmt)),
+      l.owner = [] ∧ l.name = n ∧ l.shown = some (fortranAccess (pre ++ d :: post) attrs n) := by
+  obtain ⟨e, he, _, hn, hp⟩ := access_correct_partial v pre post d c n attrs hx hnames hbare hproc hone hprot hlate
+  have hents : (runXI v g false ia [] (((pre ++ d :: post).map RStmt.plain).map XStmt.stmt)).out.ents
+      = (runUnit v false (pre ++ d :: post)).ents := by
+    simp only [runXI, runX, xstmts_map_stmt, runRaw, map_keyed_plain]
+    conv => rhs; rw [← List.map_id (runUnit v false (pre ++ d :: post)).ents]
+    apply List.map_congr_left
+    intro x _
+    unfold hostEnt
+    split
+    · simp [takeHost, implLongTakesIface]
+    · rfl
+  obtain ⟨l, hl, ho, hln, hs⟩ := (module_page_shows_own_permission unit
+    (runXI v g false ia [] (((pre ++ d :: post).map RStmt.plain).map XStmt.stmt))).1 e (by rw [hents]; exact he)
+  exact ⟨l, hl, ho, by rw [hln, hn], by rw [hs, hp]⟩
+
+/-- non-vacuity / worked instance: the page of `private` / `public :: v, g` / `integer :: v, w` / `interface g` with the
+    interface body `x` and the reference `s` / `contains` / `subroutine s`: the lines and their words -/
+example :
+    pageView .priv (runXI ⟨.afterLoop, true, true⟩ false false false []
+      [.stmt (.plain (.bare .priv)), .stmt (.plain (.access (.acc .pub) [chars! "v", chars! "g"])),
+       .stmt (.plain (.var [chars! "v", chars! "w"] [])),
+       .stmt (.plain (.iface .generic (chars! "g") [chars! "x"] [chars! "s"])),
+       .stmt (.plain .contains), .stmt (.plain (.proc false (chars! "s")))])
+    = [⟨.var, [], chars! "v", some .pub⟩, ⟨.var, [], chars! "w", some .priv⟩, ⟨.generic, [], chars! "g", some .pub⟩,
+       ⟨.member, chars! "g", chars! "x", some .priv⟩, ⟨.ref, chars! "g", chars! "s", some .priv⟩,
+       ⟨.sub, [], chars! "s", some .priv⟩] := by
+  decide
 
 end Ford.C04
